@@ -159,8 +159,9 @@ func init() {
 			{Engine: "A", Scenario: "uncommitted-config", Params: "seg=1024", Quick: 6, Thorough: 60},
 			{Engine: "A", Scenario: "uncommitted-config", Params: "seg=1024,variant=3", Quick: 10, Thorough: 100},
 		},
-		Rule:       "seeded live-cluster runs submitting random legal and illegal ChangeConfig requests (add non-voter +/- promote, promote, demote, remove, force-remove, several actions at once, direct flips and drops) with leader isolation / transfer / crash while actions are pending; non-trivial if at least 4 configuration entries were chained to a predecessor; distinct = distinct abstract trace",
+		Rule:       "seeded live-cluster runs submitting random legal and illegal ChangeConfig requests (add non-voter +/- promote, promote, demote, remove, force-remove, several actions at once, direct flips and drops) with leader isolation / transfer / crash while actions are pending, requests that reach a leader the moment it is elected, a second request behind an uncommitted one, nodes moved to another address; directed scenario uncommitted-config (an isolated leader stores a configuration that is later truncated; variant 3: it asks for a change of voting rights, the majority changes another voter, leadership is handed back); every change of voting rights must be traceable to an action in the predecessor or a request pending on that leader; the configurations one node operates under are compared one after the other; findings of the election-safety (C01) and commit-stability (C02) rules in these runs count as violations of this property; non-trivial if at least 4 configuration entries were chained to a predecessor; distinct = distinct abstract trace",
 		Nontrivial: all(ge("config-chain-links", 4)),
+		Includes:   map[string]string{"C01": "config-chain-links", "C02": "config-chain-links"},
 		MinQuick:   20, MinThorough: 200,
 		Counters:     []string{"config-entries", "config-chain-links", "voter-changes-traced-to-a-request", "config-adoptions-compared", "config-changes", "config-commits", "leaders-elected", "truncations", "crashes", "transfers-succeeded"},
 		Prefixes:     []string{"config-actions:", "admin:changeconfig:"},
@@ -216,6 +217,7 @@ func init() {
 		},
 		Rule:       "seeded live-cluster runs issuing leadership transfers (target given / any / invalid / non-voter / lagging) with stalls, one-way cuts, connection breaks and concurrent client and membership tasks; non-trivial if at least 3 transfers chose a target; distinct = distinct abstract trace",
 		Nontrivial: all(ge("transfer-targets-chosen", 3)),
+		Includes:   map[string]string{"C01": "transfer-targets-chosen"},
 		MinQuick:   20, MinThorough: 200,
 		Counters:     []string{"transfer-targets-chosen", "transfers-succeeded", "transfers-failed", "timeout-now-delivered", "leader-appends", "leaders-elected"},
 		Prefixes:     []string{"admin:transfer:", "timeout-now:"},
